@@ -7,8 +7,10 @@ under /verif/seeded/<pid>-<i>/ (patch.diff, demo.rs, meta.json incl. what was ru
 import json, os, shutil, subprocess, sys
 pid, i = sys.argv[1], sys.argv[2]
 checks = sys.argv[3:] or [pid]
-wt = "/tmp/wt_%s" % pid
-src = "/tmp/mut_%s/%s" % (pid, i)
+rnd = os.environ.get("MUT_ROUND", "")           # "" = first round, "2" = second round (wt2_/mut2_ directories)
+wt = "/tmp/wt%s_%s" % (rnd, pid)
+src = "/tmp/mut%s_%s/%s" % (rnd, pid, i)
+tag = "%s-%s" % (pid, i) if not rnd else "%s-r%s-%s" % (pid, rnd, i)
 env = dict(os.environ, CARGO_NET_OFFLINE="true", RUST_BACKTRACE="0")
 def sh(cmd, cwd=wt, timeout=1800):
     p = subprocess.run("set -o pipefail; " + cmd, shell=True, executable="/bin/bash", cwd=cwd, env=env, stdout=subprocess.PIPE, stderr=subprocess.STDOUT, timeout=timeout)
@@ -21,7 +23,7 @@ def step(name, cmd, want_rc0, cwd=wt):
     if not ok:
         print("UNEXPECTED at %s (rc=%d):\n%s" % (name, rc, out[-1500:]))
     return ok
-sh("git checkout -q -- . ; rm -f tests/mut_demo.rs")
+sh("git checkout -q -- . ; rm -f tests/mut_demo.rs; git checkout -q --detach $(git -C /repo rev-parse HEAD)")
 ok = step("apply", "git apply %s/patch.diff" % src, True)
 ok = ok and step("suite_with_patch", "cargo test --workspace --offline 2>&1 | tail -40", True)
 shutil.copy(os.path.join(src, "demo.rs"), os.path.join(wt, "tests", "mut_demo.rs"))
@@ -37,14 +39,14 @@ if ok:
             # keep the first replay file next to the seeded change
             path = v[0].split("replay=")[1].split(" ")[0]
             if os.path.exists(path):
-                os.makedirs("/verif/seeded/%s-%s" % (pid, i), exist_ok=True)
-                shutil.copy(path, "/verif/seeded/%s-%s/replay_%s.txt" % (pid, i, c))
+                os.makedirs("/verif/seeded/%s" % tag, exist_ok=True)
+                shutil.copy(path, "/verif/seeded/%s/replay_%s.txt" % (tag, c))
 sh("git checkout -q -- .")
 ok = ok and step("demo_without_patch_passes", "cargo test --offline --test mut_demo 2>&1 | tail -30", True)
 sh("rm -f tests/mut_demo.rs; git checkout -q -- .")
 print("confirmed" if ok else "NOT CONFIRMED", json.dumps(caught))
 if ok:
-    d = "/verif/seeded/%s-%s" % (pid, i)
+    d = "/verif/seeded/%s" % tag
     os.makedirs(d, exist_ok=True)
     shutil.copy(os.path.join(src, "patch.diff"), d)
     shutil.copy(os.path.join(src, "demo.rs"), d)
